@@ -1625,6 +1625,18 @@ class Interp:
         c = self.p.classes[cq]
         obj = ObjV(cq)
         init = c.lookup("__init__", self.p)
+        bound = {}
+        if init is not None:
+            ps = init.params[1:]
+            for k, v in enumerate(pos):
+                if k < len(ps):
+                    bound[ps[k]] = v
+            bound.update(kwargs)
+        self.event("construct", n, cls=cq, args=bound)
+        stubs = self.cfg.flags.get("stub_ctor") or {}
+        if cq in stubs:
+            # a rule asked to observe the construction instead of executing the constructor
+            return stubs[cq](self, bound, n)
         if init is not None:
             self.call_function(init, [obj] + pos, kwargs, n)
         return obj
